@@ -4,9 +4,8 @@
    Writers mirrored (src/canmatrix/formats/):
      scapy.py      signal_field_line (~50), get_fmt (~35)
      wireshark.py  get_coorect_bits_for_signal (~30), create_dissect_signal (~41)
-     fibex.py      create_signal_instance (~80, with fix C19_fibex_bit_position: BIT-POSITION is written with
-                   start_little=True; with fix C19_fibex_mux_segment: minus the start of the PDU's segment),
-                   get_multiplexing_parts_infos (~113), get_base_data_type (~128)
+     fibex.py      create_signal_instance (~80), get_multiplexing_parts_infos (~113), get_base_data_type (~128),
+                   MULTIPLEXER/SWITCH in dump (~606, with fix C19_fibex_switch_position: written like a signal instance)
      xls_common.py get_signal (~62) as used by csv.py dump (~85), option xlsMotorolaBitFormat
      json.py       dump, jsonExportCanard branch (~52-66)
 
@@ -19,10 +18,13 @@
      T-WIRESHARK  Lua TvbRange:bitfield(off, len): the len bits beginning off bits after the start of the range,
               counted most-significant-bit first, as an unsigned big-endian number; reversed_pdu is the payload
               with its dlc bytes in reverse order (do_reverse_pdu in the generated file itself).
-     T-FIBEX  BIT-POSITION is the LSB0 number (byte n/8, bit n mod 8 from the byte's LSB) of the signal's LEAST
-              significant bit for both byte orders; IS-HIGH-LOW-BYTE-ORDER=true: more significant bits continue
-              towards lower byte addresses; false: ascending LSB0 numbers.  CODED-TYPE BASE-DATA-TYPE
-              A_UINT*/A_INT*/A_FLOAT*, BIT-LENGTH = width.
+     T-FIBEX  = the convention canmatrix's own FIBEX importer implements (fibex.py get_signals_for_pdu ~269-324; the
+              ASAM text is not available offline): BIT-POSITION (+ the start of the PDU the instance lives in) is
+              handed to set_startbit(bitNumbering=1): Intel = LSB0 number of the least significant bit, Motorola
+              (IS-HIGH-LOW-BYTE-ORDER true) = LSB0 number of the MOST significant bit (DBC start bit).  CODED-TYPE
+              BASE-DATA-TYPE A_UINT*/A_INT*/A_FLOAT*, BIT-LENGTH = width.  Switched/static PDUs of a MULTIPLEXER
+              (the importer does not read them): the PDU starts at its SEGMENT-POSITION, as a PDU-INSTANCE starts
+              at its BIT-POSITION in the importer: frame position = segment BIT-POSITION + BIT-POSITION.
      T-CSV    start = 8*(byte column - 1) + bit column.  Intel: LSB0 number of the LSB.  Motorola, per
               xlsMotorolaBitFormat: msb = LSB0 number of the MSB; lsb = LSB0 number of the LSB; msbreverse =
               sequential MSB0 number of the MSB (bit 0 = a byte's most significant bit).
@@ -103,28 +105,25 @@ Definition fibex_base_type (s : signal) : Z * Z :=
   else if (16 <? z) && (z <=? 32) then (k, 32)
   else if (32 <? z) && (z <=? 64) then (k, 64)
   else (-1, 0).
-(* start_little = true: the fixed writer; false: the writer before the fix (kept for the refutation) *)
-Definition fibex_emit_with (start_little : bool) (s : signal) : fx_field :=
-  mkFx (get_startbit (s_le s) (s_size s) (s_start s) (Some 1) start_little) (negb (s_le s)) (s_size s)
+Definition fibex_emit (s : signal) : fx_field :=
+  mkFx (get_startbit (s_le s) (s_size s) (s_start s) (Some 1) false) (negb (s_le s)) (s_size s)
        (fst (fibex_base_type s)) (snd (fibex_base_type s)).
-Definition fibex_emit := fibex_emit_with true.
 Definition fibex_positions (f : fx_field) : list Z :=
-  map (fun j => if fx_hilo f then flip (fx_pos f) - (fx_len f - 1 - j)
+  map (fun j => if fx_hilo f then flip (fx_pos f) + j
                 else flip (fx_pos f + fx_len f - 1 - j)) (msf (fx_len f)).
 Definition fibex_reads_type (f : fx_field) : bool * bool := (fx_kind f =? 1, fx_kind f =? 2).   (* signed, float *)
 
-(* multiplexed frames (fix C19_fibex_mux_segment): the signals of the dynamic part / of the static part live in
-   PDUs of their own; get_multiplexing_parts_infos computes the SEGMENT-POSITION as the range of whole bytes
-   the part's signals touch, create_signal_instance writes positions counted from the segment's start.
-   T-FIBEX: frame position = SEGMENT-POSITION/BIT-POSITION + SIGNAL-INSTANCE/BIT-POSITION. *)
+(* multiplexed frames: the signals of the dynamic part / of the static part are written into PDUs of their own,
+   with the SAME numbers as in a plain frame (create_signal_instance), and the part's PDU is placed at a
+   SEGMENT-POSITION that get_multiplexing_parts_infos computes as [smallest internal start bit, largest
+   start + size) over the part's signals.  KNOWN FINDING fibex-mux-segment: the two do not fit together
+   unless the segment starts at bit 0. *)
 Definition seg_step (acc : Z * Z) (s : signal) : Z * Z :=
-  let first_bit := s_start s / 8 * 8 in
-  let end_pos := ((s_start s + s_size s - 1) / 8 + 1) * 8 in
-  ((if (fst acc =? -1) || (first_bit <? fst acc) then first_bit else fst acc),
+  let end_pos := s_start s + s_size s in
+  ((if (fst acc =? -1) || (s_start s <? fst acc) then s_start s else fst acc),
    (if (snd acc =? -1) || (snd acc <? end_pos) then end_pos else snd acc)).
 Definition seg_range (init : Z * Z) (sigs : list signal) : Z * Z := fold_left seg_step sigs init.
-Definition fibex_emit_in (pdu_start : Z) (s : signal) : fx_field :=
-  let f := fibex_emit s in mkFx (fx_pos f - pdu_start) (fx_hilo f) (fx_len f) (fx_kind f) (fx_width f).
+(* T-FIBEX: a signal instance inside a PDU that is placed at segment_pos *)
 Definition fibex_in_frame (segment_pos : Z) (f : fx_field) : fx_field :=
   mkFx (segment_pos + fx_pos f) (fx_hilo f) (fx_len f) (fx_kind f) (fx_width f).
 
